@@ -2,7 +2,7 @@ import Dia.CodecThm
 /-! A concrete acceptable frame, shared by the non-vacuity examples of the stream and server properties. -/
 namespace Dia
 
-def exCfg : Cfg := ⟨fun _ _ => false, 32⟩
+def exCfg : Cfg := ⟨fun _ _ => false, 32, {}⟩
 def exDictNone : Lookup := fun _ _ => .unknown
 /-- a header-only Credit-Control request: 20 octets -/
 def exFrame : Bytes := [1, 0, 0, 20, 0x80, 0, 1, 16, 0, 0, 0, 4, 0, 0, 0, 1, 0, 0, 0, 2]
@@ -10,7 +10,7 @@ def exFrameMsg : Msg := ⟨1, 20, 0x80, 272, 4, 1, 2, []⟩
 
 theorem exFrame_accepts : Accepts exCfg exDictNone exFrame exFrameMsg := by
   refine ⟨?_, by decide, by decide, by decide⟩
-  simp [decMsg, exFrame, exCfg, exDictNone, Cur.read, fromBe, cmdKnown, appKnown, decGroup, exFrameMsg, Out.bind]
+  simp [decMsg, exFrame, exCfg, exDictNone, Cur.read, fromBe, Tables.cmdKnown, Tables.appKnown, decGroup, exFrameMsg, Out.bind]
 
 theorem exFrameMsg_enc : exFrameMsg.enc = ⟨exFrame, none⟩ := by
   simp [Msg.enc, exFrameMsg, exFrame, Enc.ok, Enc.andThen, encList, be24, be32]
